@@ -43,9 +43,13 @@ META = {
 # drop / cryptv / mdstr: found by an independent audit (2026-10-03), present in /repo today, listed in known_findings/C05.json;
 # proposed_fixes/C05-password-not-encodable.diff, C05-crypt-filter-below-v4.diff, C05-metadata-stream-dictionary-strings.diff.
 DEV = {"h12": False, "h13": False, "t127": False, "mdict": False, "dparr": False, "osrep": False,
-       "drop": False, "cryptv": False, "mdstr": False}     # repaired by 9c92c82, 175e800, f232be7
+       "drop": False, "cryptv": False, "mdstr": False,     # repaired by 9c92c82, 175e800, f232be7
+       # second audit of C05 (2026-10-03): repaired by e6ea148 (expand object streams once), 5ac6a72 (indirect Crypt parameters).
+       # (No switch for "empty owner password at R5/R6": Algorithms 8/9 have no substitution, "" then IS the owner password.)
+       "osres": False, "cind": False}
 DEV_TAG = {"h12": "owner.R234.key", "h13": "streamdict.string", "t127": "pw.gt127.R56", "mdict": "metadata.nonstream", "dparr": "crypt.dparray",
-           "osrep": "restored.objstm.member", "drop": "pw.unencodable.R234", "cryptv": "crypt.belowV4", "mdstr": "metadata.streamdict"}
+           "osrep": "restored.objstm.member", "drop": "pw.unencodable.R234", "cryptv": "crypt.belowV4", "mdstr": "metadata.streamdict",
+           "osres": "objstm.member.resurrected", "cind": "crypt.indirect"}
 NEED_TAGS = ("ok-restored", "ok-rejected", "ok-loaded-enc", "ok-loaded-autodecrypted", "ok-auth", "ok-auth-rejected", "ok", "ok-edit")
 FILE_DOCS = ("D5", "D6")   # MC_Security!FileDocs: documents given in the state a loader leaves
 
@@ -69,7 +73,7 @@ def with_dev(cfg_name, w, flags):
     return p
 
 
-ACTIONS = ["MakeStateH", "EncryptH", "SaveH", "LoadH", "DecryptH", "AuthUserH", "AuthOwnerH", "AuthH", "EditH", "RekeyH"]
+ACTIONS = ["MakeStateH", "EncryptH", "SaveH", "LoadH", "DecryptH", "AuthUserH", "AuthOwnerH", "AuthH", "EditH", "RekeyH", "DeleteH"]
 
 TOK = {"E": "", "A": "user", "B": "owner", "W": "nope", "N": "пароль", "N2": "密碼",
        "L1": "a" * 32 + "TAIL1", "L2": "a" * 32 + "tail2", "S32": "a" * 32,
@@ -224,9 +228,9 @@ def triage(chk, events, verdicts, inputs_by_case=None, predicted=None):
 def synth_trace():
     """a conforming run written by hand (V5, AES256 strings and streams, passwords user/owner) for the negative controls"""
     def it(kind, ln, eq, insd=False, otyp="-", crypt="none"):
-        return {"kind": kind, "insd": insd, "otyp": otyp, "inmd": False, "osm": ln == 5, "crypt": {"f": crypt, "n": ""}, "len": ln, "present": True, "eq": eq}
+        return {"kind": kind, "insd": insd, "otyp": otyp, "inmd": False, "osm": ln == 5, "crypt": {"f": crypt, "n": "", "ind": False}, "len": ln, "present": True, "eq": eq, "gone": False}
     objs = [{"k": "dict", "typ": "-", "v": [{"k": "str", "pid": 1, "len": 20}, {"k": "arr", "v": [{"k": "str", "pid": 2, "len": 5}]}]},
-            {"k": "stream", "typ": "-", "crypt": {"f": "none", "n": ""}, "d": [], "pid": 3, "len": 40, "mem": []}]
+            {"k": "stream", "typ": "-", "crypt": {"f": "none", "n": "", "ind": False}, "d": [], "pid": 3, "len": 40, "mem": []}]
     no = {"u": "diff", "o": "diff", "ud": False, "od": False, "rep": True}
     own = {"u": "diff", "o": "same", "ud": False, "od": True, "rep": True}
     cfg = {"V": 5, "R": 6, "klen": 256, "em": True, "cf": [["F1", "AES256"], ["F2", "AES256"]], "stmf": "F1", "strf": "F2",
@@ -267,6 +271,10 @@ NEGATIVES = [
     # V 2: a stream with a Crypt filter entry stays as it is
     ("crypt.belowV4", lambda t: (v2(t), [e["items"][2]["crypt"].update(f="name", n="F1") for e in t[1:]], t[2]["items"][2].update(eq=True))),
     # EncryptMetadata false: a string in the metadata stream's dictionary stays as it is
+    # Crypt parameters through an indirect object: the stream stays as it is
+    ("crypt.indirect", lambda t: ([e["items"][2]["crypt"].update(f="name", n="F1", ind=True) for e in t[1:]], t[2]["items"][2].update(eq=True))),
+    # an object the caller deleted is back after decrypt
+    ("objstm.member.resurrected", lambda t: [e["items"][1].update(gone=True, present=(e is t[7]), eq=(e is t[7])) for e in t[1:]]),
     ("metadata.streamdict", lambda t: (t[0]["cfg"].update(em=False), [e["items"][0].update(insd=True, otyp="Metadata") for e in t[1:]],
                                        t[2]["items"][0].update(eq=True))),
 ]
@@ -562,6 +570,12 @@ def run(tier):
                 itemcls.add("member.edit.roundtrip")
             if c["call"] == "Edit" and c["res"] == "Ok":
                 itemcls.add("edit")
+            if c["call"] == "Delete" and c["res"] == "Ok" and c["pos"] in members:
+                itemcls.add("delete.member")
+            if c["call"] == "Decrypt" and c0["R"] >= 5 and c0["olen"] == 0 and c0["ulen"] > 0 and len(c.get("pw", [0])) == 0:
+                itemcls.add("empty.offer.with.empty.owner.R56")
+            if c["call"] == "Encrypt" and any(itm["crypt"]["ind"] and itm["len"] >= 16 for itm in c["items"]):
+                itemcls.add("crypt.indirect.parameters")
         cfgs.add(cfg_class(reset["cfg"]))
         u, o = "".join(map(chr, reset["user"])), "".join(map(chr, reset["owner"]))
         pws |= pw_class(u) | pw_class(o) | ({"owner=user"} if u == o else set())
@@ -587,7 +601,7 @@ def run(tier):
               ({"streamdict", "metadata", "crypt.name", "crypt.arr", "crypt.nodp", "crypt.noname", "empty.str", "empty.stream", "long.str", "long.stream",
                 "pw.user.unencodable", "pw.owner.unencodable", "pw.emoji", "pw.mixed", "offer.differs.in.unencodable",
                 "rekey.V4+.to.V2-", "crypt.entry.belowV4", "two-revision.objstm.file.loaded", "two-revision.objstm.file.autodecrypt",
-                "two-revision.objstm.file.decrypt", "incremental.update.of.encrypted.file", "incremental.update.of.encrypted.file.emptypw", "metadata.dict.string.em=True", "metadata.dict.string.em=False",
+                "two-revision.objstm.file.decrypt", "delete.member", "empty.offer.with.empty.owner.R56", "crypt.indirect.parameters", "incremental.update.of.encrypted.file", "incremental.update.of.encrypted.file.emptypw", "metadata.dict.string.em=True", "metadata.dict.string.em=False",
                 "prep.mem", "prep.file-objstm", "prep.file-xrefstm", "objstm.container", "objstm.member", "edit", "member.edit.roundtrip"} - itemcls)
     if missing:
         raise vlib.ToolError("vacuous trace set: classes never recorded: %s" % sorted(missing))
